@@ -343,13 +343,20 @@ func init() {
 			// h2: TarsInvoke builds the request
 			if fn := r.w.Func("tars", "ServantProxy.TarsInvoke"); fn != nil {
 				st := literalStores(fn, reqPacketT)
-				ctxOK := st["Context"] != nil && pathOf(st["Context"]) == "reqContext"
-				stOK := st["Status"] != nil && strings.HasPrefix(pathOf(st["Status"]), "status")
+				// TarsInvoke(ctx, cType, sFuncName, buf, status, reqContext, resp): the exported signature fixes the positions
+				pname := func(i int) string {
+					if i < len(fn.Params) {
+						return fn.Params[i].Name()
+					}
+					return "\x00"
+				}
+				ctxOK := st["Context"] != nil && pathOf(st["Context"]) == pname(6)
+				stOK := st["Status"] != nil && strings.HasPrefix(pathOf(st["Status"]), pname(5))
 				r.Check(ctxOK && stOK, fname(fn), "h2 RequestPacket.Context/Status", fn.Pos(), "Context ← reqContext, Status ← status", "the request packet's Context/Status are not the reqContext/status parameters")
 				// h6: *resp = *msg.Resp on the success path
 				h6 := false
 				eachInstr(fn, func(in ssa.Instruction) {
-					if s, ok := in.(*ssa.Store); ok && pathOf(s.Addr) == "resp" && strings.HasSuffix(pathOf(s.Val), ".Resp") {
+					if s, ok := in.(*ssa.Store); ok && pathOf(s.Addr) == pname(7) && strings.HasSuffix(pathOf(s.Val), ".Resp") {
 						h6 = true
 					}
 				})
